@@ -204,8 +204,9 @@ Proof.
       * inversion C; subst. eapply P_trans; [exact H|apply P_stop].
     + destruct (handle_outbound_reject sc now q mt text s1) as [[r2 s2] e2] eqn:E.
       inversion C; subst. eapply P_trans; [exact H|].
-      replace e2 with (e2 ++ [])%list by apply app_nil_r.
-      eapply P_trans; [eapply keeps_outbound_reject; exact E|apply P_same; reflexivity].
+      replace e2 with (e2 ++ ([] ++ []))%list by (rewrite !app_nil_r; reflexivity).
+      eapply P_trans; [eapply keeps_outbound_reject; exact E|].
+      eapply (P_trans _ (w_next_recv (s_next_recv s2 + 1) s2)); [apply P_same; reflexivity|apply P_update_persist].
 Qed.
 
 Theorem P_process : forall raw s b s' e, process sc decode fl now raw s = (b, s', e) -> P s s' e.
